@@ -152,6 +152,15 @@ def enumerate_ops(tree, nlev, rng, ndims, nf, full=True):
             rep(newhdr(s["lo"], s["hi"], s["nf"] + 1), True, "fab-nfields")
             if s["nf"] > 1:
                 rep(newhdr(s["lo"], s["hi"], s["nf"] - 1), True, "fab-nfields")
+            # a FAB that is consistent in itself (header and payload agree) but holds another number of components
+            # than the plotfile: one component less / one more, payload resized with the header
+            per = s["pay"] // s["nf"] if s["nf"] else 0
+            body = tree[f][p0: p0 + s["pay"]]
+            if s["nf"] > 1:
+                out.append(({"op": "replace_bytes", "file": f, "pos": s["off"], "n": s["hlen"] + s["pay"],
+                             "hex": (newhdr(s["lo"], s["hi"], s["nf"] - 1) + body[: per * (s["nf"] - 1)]).hex()}, lv, True, "fab-ncomp-consistent"))
+            out.append(({"op": "replace_bytes", "file": f, "pos": s["off"], "n": s["hlen"] + s["pay"],
+                         "hex": (newhdr(s["lo"], s["hi"], s["nf"] + 1) + body + body[:per]).hex()}, lv, True, "fab-ncomp-consistent"))
             rep(newhdr([x + 2 for x in s["lo"]], [x + 2 for x in s["hi"]], s["nf"]), True, "fab-index-shift")
             hi2 = list(s["hi"]); hi2[0] += 1
             rep(newhdr(s["lo"], hi2, s["nf"]), True, "fab-shape")
